@@ -98,7 +98,7 @@ func miDecEvent(id string, draft string, digest string, stream []byte, max uint6
 		eofs, errs := 0, 0
 		if mode == "copy" || mode == "sniffcopy" {
 			// a consumer that drains the decoder with io.Copy (which prefers an io.WriterTo if the decoder has one),
-			// optionally after sniffing a few bytes with Read.  The drain is logged as ONE read of size 0.
+			// optionally after sniffing a few bytes with Read.  The drain is logged as ONE read of size -1.
 			if mode == "sniffcopy" {
 				n, err := dec.Read(buf)
 				res := "nil"
@@ -118,7 +118,7 @@ func miDecEvent(id string, draft string, digest string, stream []byte, max uint6
 			if err != nil {
 				res = "err"
 			}
-			reads = append(reads, miRead{N: 0, Data: ints(out.Bytes()), Res: res})
+			reads = append(reads, miRead{N: -1, Data: ints(out.Bytes()), Res: res})
 			return
 		}
 		for i := 0; i < len(stream)+8 && eofs < 2; i++ {
@@ -131,6 +131,20 @@ func miDecEvent(id string, draft string, digest string, stream []byte, max uint6
 				res = "err"
 			}
 			reads = append(reads, miRead{N: dst, Data: ints(buf[:n]), Res: res})
+			if mode == "zeros" && res == "nil" {
+				// a zero-length Read between two ordinary ones (io.Reader allows it; it must be a no-op on the delivered bytes)
+				n0, err0 := dec.Read(buf[:0])
+				res0 := "nil"
+				if err0 == io.EOF {
+					res0 = "eof"
+				} else if err0 != nil {
+					res0 = "err"
+				}
+				reads = append(reads, miRead{N: 0, Data: ints(buf[:n0]), Res: res0})
+				if res0 == "eof" {
+					eofs++
+				}
+			}
 			if res == "err" {
 				// a consumer that keeps reading after an error must still never be handed unauthenticated bytes
 				errs++
@@ -170,7 +184,7 @@ func miceGrid(args []string) error {
 	thorough := len(args) > 0 && args[0] == "thorough"
 	r := rand.New(rand.NewSource(seed()))
 	id := 0
-	modes := []string{"whole", "one", "rand", "copy", "sniffcopy"}
+	modes := []string{"whole", "one", "rand", "copy", "sniffcopy", "zeros"}
 	for _, draft := range []string{"02", "03"} {
 		small := []int{1, 2, 3, 7, 16}
 		if thorough {
@@ -182,7 +196,7 @@ func miceGrid(args []string) error {
 				p := miPayload(r, l)
 				st, dg := miEncEvent("g"+strconv.Itoa(id), draft, rs, p)
 				dst := []int{1, rs, rs + 1, 4096}[r.Intn(4)]
-				miDecEvent("g"+strconv.Itoa(id)+"d", draft, dg, st, 16384, modes[id%5], dst, r, p, true, "honest")
+				miDecEvent("g"+strconv.Itoa(id)+"d", draft, dg, st, 16384, modes[id%6], dst, r, p, true, "honest")
 			}
 		}
 		for _, rs := range []int{255, 256, 4096, 16383, 16384} {
@@ -190,7 +204,7 @@ func miceGrid(args []string) error {
 				id++
 				p := miPayload(r, l)
 				st, dg := miEncEvent("b"+strconv.Itoa(id), draft, rs, p)
-				miDecEvent("b"+strconv.Itoa(id)+"d", draft, dg, st, 16384, modes[id%5], []int{1000, rs, 70000}[r.Intn(3)], r, p, true, "honest")
+				miDecEvent("b"+strconv.Itoa(id)+"d", draft, dg, st, 16384, modes[id%6], []int{1000, rs, 70000}[r.Intn(3)], r, p, true, "honest")
 			}
 		}
 		n := 60
@@ -209,14 +223,14 @@ func miceGrid(args []string) error {
 			}
 			p := miPayload(r, l)
 			st, dg := miEncEvent("r"+strconv.Itoa(id), draft, rs, p)
-			miDecEvent("r"+strconv.Itoa(id)+"d", draft, dg, st, uint64(16384), modes[id%5], 1+l/64+r.Intn(2*rs+2), r, p, true, "honest")
+			miDecEvent("r"+strconv.Itoa(id)+"d", draft, dg, st, uint64(16384), modes[id%6], 1+l/64+r.Intn(2*rs+2), r, p, true, "honest")
 		}
 		// many records (paths that depend on the number of records): 600 and 1300 records of 1 and 2 bytes
 		for _, c := range [][2]int{{600, 1}, {2600, 2}} {
 			id++
 			p := miPayload(r, c[0])
 			st, dg := miEncEvent("n"+strconv.Itoa(id), draft, c[1], p)
-			miDecEvent("n"+strconv.Itoa(id)+"d", draft, dg, st, uint64(16384), modes[id%5], 64, r, p, true, "honest")
+			miDecEvent("n"+strconv.Itoa(id)+"d", draft, dg, st, uint64(16384), modes[id%6], 64, r, p, true, "honest")
 			miDecEvent("n"+strconv.Itoa(id)+"c", draft, dg, st, uint64(16384), "sniffcopy", 3, r, p, true, "honest")
 		}
 	}
@@ -236,7 +250,7 @@ func miceMut(args []string) error {
 	thorough := len(args) > 0 && args[0] == "thorough"
 	r := rand.New(rand.NewSource(seed()))
 	id := 0
-	modes := []string{"whole", "one", "rand", "copy", "sniffcopy"}
+	modes := []string{"whole", "one", "rand", "copy", "sniffcopy", "zeros"}
 	next := func(p string) string { id++; return p + strconv.Itoa(id) }
 	for _, draft := range []string{"02", "03"} {
 		type hc struct{ rs, l int }
@@ -267,7 +281,7 @@ func miceMut(args []string) error {
 				if dst < len(s)/64 { // keep the number of Read calls per case bounded
 					dst = len(s)/64 + 1
 				}
-				miDecEvent(next(tag), draft, digest, s, max, modes[id%5], dst, r, p, honest, note)
+				miDecEvent(next(tag), draft, digest, s, max, modes[id%6], dst, r, p, honest, note)
 			}
 			big := len(st) > 400
 			// every bit (thorough, small streams) / one bit per byte / sampled bytes (large streams)
@@ -373,7 +387,7 @@ func miceMut(args []string) error {
 			st = append(st, u64bytes(uint64(rs))...)
 			st = append(st, miPayload(r, r.Intn(3*(rs+32)))...)
 			pr := sha256.Sum256(append(append([]byte{}, st[8:]...), byte(r.Intn(2))))
-			miDecEvent(next("a"), draft, stdDigest(draft, pr[:]), st, 16384, modes[i%5], 1+r.Intn(8), r, nil, false, "arbitrary")
+			miDecEvent(next("a"), draft, stdDigest(draft, pr[:]), st, 16384, modes[i%6], 1+r.Intn(8), r, nil, false, "arbitrary")
 		}
 	}
 	return nil
